@@ -231,6 +231,31 @@ end
 
 def layoutE (e : SExp) : List Char := layoutS e ++ ['\n']
 
+/-! decidable cleanliness of what the writer emits (hypothesis of `lex_layout`; reported by the driver) -/
+
+/-- characters that may occur in an unquoted atom -/
+def plainChar (c : Char) : Bool := !(c == '"' || c == '(' || c == ')' || isWs c)
+
+/-- an atom is a non-empty unquoted word, or a quoted string without `"`, `\n`, `\r` inside -/
+def cleanAtomB (s : Str) : Bool :=
+  (!s.isEmpty && s.all plainChar) ||
+  (match s with
+   | '"' :: r =>
+     (match r.reverse with
+      | '"' :: m => m.all (fun c => c != '"' && c != '\n' && c != '\r')
+      | _ => false)
+   | _ => false)
+
+mutual
+def SExp.cleanB : SExp → Bool
+  | .atom s => cleanAtomB s
+  | .list xs => cleanLB xs
+def cleanLB : List SExp → Bool
+  | [] => true
+  | x :: xs => x.cleanB && cleanLB xs
+end
+
+
 /-- the text the model writes -/
 def composeE (ts : List Nat) (n : CNetlist) : W (List Char) := do
   let e ← toSExp ts n
